@@ -404,7 +404,7 @@ Proof.
   - rewrite received_from_cons in *. apply wf_bytes_app in W. destruct W as [W1 W2].
     destruct (step_consume s o I W1) as [I1 E1].
     destruct (IH (step s o) I1 W2) as [I2 E2].
-    cbn [fold_left]. split; [exact I2|]. rewrite E2, E1, <- !app_assoc. reflexivity.
+    cbn [fold_left]. split; [exact I2|]. rewrite E2, app_assoc, E1, <- !app_assoc. reflexivity.
 Qed.
 
 (** Every octet that was read is part of a frame that was acted on -- and the
@@ -432,4 +432,524 @@ Theorem handled_shape : forall c ops,
 Proof.
   intros c ops W. destruct (consume_from ops (init c) (Inv_init c) W) as [[(Sh & NE & Wf & Wb) G] _].
   cbv zeta. unfold run. auto.
+Qed.
+
+(** * The channel lemma *)
+
+Definition is_prefix {A} (l1 l2 : list A) : Prop := exists m, l2 = l1 ++ m.
+
+(** A frame sequence as a receiver starting in phase [ph] would accept it:
+    the first frame in phase [ph], every later one in the message phase. *)
+Fixpoint wfseq (ph : bool) (l : list frame) : Prop :=
+  match l with
+  | [] => True
+  | f :: r => accepts ph f /\ wfseq true r
+  end.
+
+Lemma wfseq_msgs ms : Forall wf_frame (map FMsg ms) -> wfseq true (map FMsg ms).
+Proof.
+  induction ms as [|m ms IH]; intros W; cbn [map wfseq]; [exact I|].
+  inversion W; subst. split; [split; [assumption|reflexivity]|]. apply IH. assumption.
+Qed.
+
+Lemma wfseq_shape l : shape l -> Forall wf_frame l -> wfseq false l.
+Proof.
+  intros [->|(c & ms & ->)] W; [exact I|]. inversion W; subst. cbn [wfseq].
+  split; [split; [assumption|reflexivity]|]. apply wfseq_msgs. assumption.
+Qed.
+
+Lemma encode_frame_nonempty ph f : accepts ph f -> encode_frame f <> [].
+Proof.
+  intros A E. pose proof (frame_parse_encode ph f [] A) as P. apply frame_parse_shrinks in P.
+  rewrite E in P. cbn in P. lia.
+Qed.
+
+(** Unique decodability of frame sequences: if the encoding of one accepted
+    sequence is a prefix of the encoding of another, the first sequence is a
+    prefix of the second. *)
+Lemma frames_prefix : forall l1 l2 ph x,
+  wfseq ph l1 -> wfseq ph l2 -> enc l1 ++ x = enc l2 -> is_prefix l1 l2.
+Proof.
+  induction l1 as [|f r IH]; intros l2 ph x W1 W2 E.
+  - exists l2. reflexivity.
+  - destruct W1 as [A1 W1]. destruct l2 as [|g t].
+    + unfold enc in E. cbn [map concat] in E. exfalso. apply (encode_frame_nonempty ph f A1).
+      destruct (encode_frame f); [reflexivity|discriminate E].
+    + destruct W2 as [A2 W2]. unfold enc in E. cbn [map concat] in E. rewrite <- app_assoc in E.
+      destruct (frame_prefix_free ph f g _ _ A1 A2 E) as [<- E'].
+      destruct (IH t true x W1 W2 E') as [m ->]. exists m. reflexivity.
+Qed.
+
+(** Reliable FIFO message channel: if what B has read is a prefix of what A's
+    socket has accepted, the frames B acted on are a prefix of the frames A
+    sent -- for all operation lists of both endpoints.  Hypotheses about A that
+    are facts of the sender side of the model, kept explicit here:
+    [sent_accounting] (every octet written comes from the encoding of a sent
+    frame, in order), well-formedness of what A sends, and that A sends a
+    contact header first and only messages after it. *)
+Theorem channel : forall cA opsA cB opsB,
+  (exists rest, wire (run cA opsA) = received (init cB) opsB ++ rest) ->
+  wire (run cA opsA) ++ conn_tx (run cA opsA) ++ msg_tx (run cA opsA) = enc (sent (run cA opsA)) ->
+  Forall wf_frame (sent (run cA opsA)) ->
+  shape (sent (run cA opsA)) ->
+  is_prefix (handled (run cB opsB)) (sent (run cA opsA)).
+Proof.
+  intros cA opsA cB opsB [rest HW] ACC WF SH.
+  set (sA := run cA opsA) in *.
+  assert (WE : wf_bytes (enc (sent sA))).
+  { clear -WF. induction (sent sA) as [|f l IH]; [constructor|]. inversion WF; subst.
+    unfold enc. cbn [map concat]. apply wf_bytes_app. split; [apply encode_frame_wf; assumption|apply IH; assumption]. }
+  assert (WR : wf_bytes (received (init cB) opsB)).
+  { rewrite <- ACC, HW in WE. apply wf_bytes_app in WE. destruct WE as [WE _].
+    apply wf_bytes_app in WE. tauto. }
+  pose proof (consumption cB opsB WR) as CON.
+  destruct (handled_shape cB opsB WR) as (WfB & ShB & _).
+  apply frames_prefix with (ph := false) (x := rx_buf (run cB opsB) ++ rest ++ conn_tx sA ++ msg_tx sA).
+  - apply wfseq_shape; assumption.
+  - apply wfseq_shape; assumption.
+  - rewrite <- ACC, HW, CON, <- !app_assoc. reflexivity.
+Qed.
+
+(** * Session-level framing: what the session handler has acted on is a
+      function of the octets read *)
+
+Lemma parse_frame_nil ph : parse_frame ph [] = None.
+Proof. destruct ph; reflexivity. Qed.
+
+(** The receive loop runs to completion: it only stops on an exception, on a
+    closed connection, or when no complete frame is left. *)
+Lemma recv_loop_quiescent : forall fuel s s' e,
+  (length (rx_buf s) < fuel)%nat -> recv_loop fuel s = (s', e) ->
+  e <> None \/ closed s' = true \/ parse_frame (in_conn s') (rx_buf s') = None.
+Proof.
+  induction fuel as [|fuel IH]; intros s s' e F E; [lia|]. cbn [recv_loop] in E.
+  destruct (is_nil (rx_buf s) || closed s) eqn:Stop.
+  { injection E as <- <-. apply orb_true_iff in Stop. destruct Stop as [N|C]; [|auto].
+    right. right. destruct (rx_buf s); [apply parse_frame_nil|discriminate N]. }
+  destruct (parse_frame (in_conn s) (rx_buf s)) as [[fr rest]|] eqn:P; [|injection E as <- <-; auto].
+  apply frame_parse_shrinks in P.
+  set (s0 := s <| rx_buf := rest |> <| handled := handled s ++ [fr] |>) in E.
+  destruct (recv_frame fr s0) as [s1 e1] eqn:RF.
+  apply recv_frame_view in RF. destruct RF as (_ & V2 & _).
+  change (rx_buf s0) with rest in V2.
+  destruct e1 as [k|]; [injection E as <- <-; left; discriminate|].
+  apply (IH s1 s' e); [rewrite V2; lia|exact E].
+Qed.
+
+Lemma recv_loop_alive : forall fuel s s' e, recv_loop fuel s = (s', e) -> rx_alive s' = rx_alive s.
+Proof.
+  induction fuel as [|fuel IH]; intros s s' e E; cbn [recv_loop] in E; [injection E as <- <-; reflexivity|].
+  destruct (is_nil (rx_buf s) || closed s); [injection E as <- <-; reflexivity|].
+  destruct (parse_frame (in_conn s) (rx_buf s)) as [[fr rest]|]; [|injection E as <- <-; reflexivity].
+  set (s0 := s <| rx_buf := rest |> <| handled := handled s ++ [fr] |>) in E.
+  destruct (recv_frame fr s0) as [s1 e1] eqn:RF.
+  apply recv_frame_view in RF. destruct RF as (_ & _ & V3 & _). change (rx_alive s0) with (rx_alive s) in V3.
+  destruct e1 as [k|]; [injection E as <- <-; exact V3|]. rewrite (IH s1 s' e E). exact V3.
+Qed.
+
+Definition Q (s : ep) : Prop :=
+  closed s = true \/ rx_alive s = false \/ parse_frame (in_conn s) (rx_buf s) = None.
+
+Lemma Q_step s o : Q s -> Q (step s o).
+Proof.
+  intros H. destruct (is_rx o) eqn:R.
+  2:{ destruct (cv_inj _ _ (cv_step_other s o R)) as (_ & H2 & H3 & H4). unfold Q. rewrite H2, H3, H4.
+      destruct H as [C|H]; [left; apply closed_step; exact C|right; exact H]. }
+  destruct o; try discriminate R. unfold step.
+  destruct (closed s) eqn:C; [exact H|].
+  destruct (is_nil data || negb (rx_alive s)) eqn:N; [exact H|].
+  unfold recv_raw. cbv zeta.
+  match goal with |- context [recv_loop ?f ?x] => destruct (recv_loop f x) as [s1 e] eqn:E end.
+  apply recv_loop_quiescent in E; [|lia].
+  destruct e as [k|]; [right; left; reflexivity|].
+  destruct E as [E|E]; [congruence|]. unfold Q. tauto.
+Qed.
+
+Lemma Q_run c ops : Q (run c ops).
+Proof. apply run_invariant; [right; right; reflexivity|intros; apply Q_step; assumption]. Qed.
+
+Lemma closed_step_inv s o : closed (step s o) = false -> closed s = false.
+Proof. intros H. destruct (closed s) eqn:C; [|reflexivity]. rewrite (closed_step s o C) in H. discriminate. Qed.
+
+Lemma alive_step_inv s o : rx_alive (step s o) = true -> rx_alive s = true.
+Proof.
+  intros H. destruct (is_rx o) eqn:R.
+  2:{ destruct (cv_inj _ _ (cv_step_other s o R)) as (_ & _ & H3 & _). congruence. }
+  destruct o; try discriminate R. unfold step in H.
+  destruct (closed s); [exact H|].
+  destruct (is_nil data || negb (rx_alive s)); [exact H|].
+  unfold recv_raw in H. cbv zeta in H.
+  match type of H with context [recv_loop ?f ?x] => destruct (recv_loop f x) as [s1 e] eqn:E end.
+  apply recv_loop_alive in E. destruct e; [discriminate H|]. rewrite E in H. exact H.
+Qed.
+
+Lemma enc_app a b : enc (a ++ b) = enc a ++ enc b.
+Proof. unfold enc. rewrite map_app, concat_app. reflexivity. Qed.
+
+Lemma frames_comparable : forall l1 l2 ph x y,
+  wfseq ph l1 -> wfseq ph l2 -> enc l1 ++ x = enc l2 ++ y -> is_prefix l1 l2 \/ is_prefix l2 l1.
+Proof.
+  induction l1 as [|f r IH]; intros l2 ph x y W1 W2 E.
+  - left. exists l2. reflexivity.
+  - destruct l2 as [|g t]; [right; exists (f :: r); reflexivity|].
+    destruct W1 as [A1 W1]. destruct W2 as [A2 W2].
+    unfold enc in E. cbn [map concat] in E. rewrite <- !app_assoc in E.
+    destruct (frame_prefix_free ph f g _ _ A1 A2 E) as [<- E'].
+    destruct (IH t true x y W1 W2 E') as [[m ->]|[m ->]]; [left|right]; exists m; reflexivity.
+Qed.
+
+Lemma map_FMsg_elt l a f b : map FMsg l = a ++ f :: b -> exists m, f = FMsg m.
+Proof.
+  intros E. assert (I : In f (map FMsg l)) by (rewrite E; apply in_elt).
+  apply in_map_iff in I. destruct I as (m & <- & _). exists m. reflexivity.
+Qed.
+
+(** An endpoint that is open and listening has acted on every complete frame
+    it has read: the octets it keeps do not start with another acceptable frame. *)
+Lemma no_next_frame s f m z :
+  Inv s -> Q s -> closed s = false -> rx_alive s = true ->
+  shape (handled s ++ f :: m) -> Forall wf_frame (handled s ++ f :: m) ->
+  rx_buf s = encode_frame f ++ z -> False.
+Proof.
+  intros [(Sh & NE & _ & _) G] Hq C A Sh2 Wf2 EB.
+  apply Forall_app in Wf2. destruct Wf2 as [_ Wf2]. inversion Wf2 as [|? ? Wf _]; subst.
+  assert (AC : accepts (in_conn s) f).
+  { destruct Sh as [HN|(c & ms & HS)].
+    - rewrite HN in *. cbn [app] in Sh2. destruct Sh2 as [Ab|(c & ms & E2)]; [discriminate|].
+      injection E2 as -> _. split; [exact Wf|].
+      destruct (in_conn s) eqn:IC; [exfalso; exact (NE eq_refl eq_refl)|reflexivity].
+    - rewrite HS in *. destruct Sh2 as [Ab|(c2 & ms2 & E2)]; [discriminate|].
+      cbn [app] in E2. injection E2 as _ E2. symmetry in E2. apply map_FMsg_elt in E2. destruct E2 as [x ->].
+      split; [exact Wf|].
+      destruct (in_conn s) eqn:IC; [reflexivity|]. destruct (G eq_refl) as [H|[H|H]]; congruence. }
+  pose proof (frame_parse_encode _ _ z AC) as P. rewrite <- EB in P.
+  destruct Hq as [H|[H|H]]; congruence.
+Qed.
+
+(** C07 for the actual session handler: for any two operation lists of an
+    endpoint (any interleaving with sends, pumps, timers; any chunking of the
+    reads) that have read the same octets and have left the endpoint open and
+    listening, the frames acted on and the octets kept are the same. *)
+Theorem session_stream_only : forall c ops1 ops2,
+  received (init c) ops1 = received (init c) ops2 ->
+  wf_bytes (received (init c) ops1) ->
+  closed (run c ops1) = false -> rx_alive (run c ops1) = true ->
+  closed (run c ops2) = false -> rx_alive (run c ops2) = true ->
+  handled (run c ops1) = handled (run c ops2) /\ rx_buf (run c ops1) = rx_buf (run c ops2).
+Proof.
+  intros c ops1 ops2 ER W1 C1 A1 C2 A2.
+  assert (W2 : wf_bytes (received (init c) ops2)) by (rewrite <- ER; exact W1).
+  destruct (consume_from ops1 (init c) (Inv_init c) W1) as [I1 E1].
+  destruct (consume_from ops2 (init c) (Inv_init c) W2) as [I2 E2].
+  fold (run c ops1) in *. fold (run c ops2) in *.
+  cbn [handled rx_buf init enc map concat app] in E1, E2.
+  pose proof (Q_run c ops1) as Q1. pose proof (Q_run c ops2) as Q2.
+  set (s1 := run c ops1) in *. set (s2 := run c ops2) in *.
+  assert (E : enc (handled s1) ++ rx_buf s1 = enc (handled s2) ++ rx_buf s2).
+  { rewrite E1, E2. exact ER. }
+  pose proof I1 as [(Sh1 & _ & Wf1 & _) _]. pose proof I2 as [(Sh2 & _ & Wf2 & _) _].
+  destruct (frames_comparable _ _ false _ _ (wfseq_shape _ Sh1 Wf1) (wfseq_shape _ Sh2 Wf2) E) as [[m Hm]|[m Hm]].
+  - destruct m as [|f m].
+    + rewrite app_nil_r in Hm. rewrite Hm in E |- *. apply app_inv_head in E. auto.
+    + exfalso. rewrite Hm, enc_app in E. unfold enc at 3 in E. cbn [map concat] in E.
+      rewrite <- !app_assoc in E. apply app_inv_head in E.
+      refine (no_next_frame s1 f m _ I1 Q1 C1 A1 _ _ E); rewrite <- Hm; assumption.
+  - destruct m as [|f m].
+    + rewrite app_nil_r in Hm. rewrite Hm in E |- *. apply app_inv_head in E. auto.
+    + exfalso. rewrite Hm, enc_app in E. unfold enc at 2 in E. cbn [map concat] in E.
+      rewrite <- !app_assoc in E. apply app_inv_head in E. symmetry in E.
+      refine (no_next_frame s2 f m _ I2 Q2 C2 A2 _ _ E); rewrite <- Hm; assumption.
+Qed.
+
+Lemma received_from_app : forall l1 l2 s,
+  received_from s (l1 ++ l2) = received_from s l1 ++ received_from (fold_left step l1 s) l2.
+Proof.
+  induction l1 as [|o l1 IH]; intros l2 s; [reflexivity|].
+  cbn [app fold_left]. rewrite (received_from_cons s o (l1 ++ l2)), (received_from_cons s o l1), IH, <- app_assoc.
+  reflexivity.
+Qed.
+
+(** Two socket reads are one, as far as the frames acted on and the octets
+    kept are concerned, whenever both ways leave the endpoint open and
+    listening. *)
+Theorem session_two_reads : forall c ops d1 d2,
+  let s := run c ops in
+  let a := step (step s (ORx d1)) (ORx d2) in
+  let b := step s (ORx (d1 ++ d2)) in
+  wf_bytes (received (init c) ops) -> wf_bytes d1 -> wf_bytes d2 ->
+  closed a = false -> rx_alive a = true -> closed b = false -> rx_alive b = true ->
+  handled a = handled b /\ rx_buf a = rx_buf b.
+Proof.
+  intros c ops d1 d2 s a b W0 Wd1 Wd2 Ca Aa Cb Ab.
+  assert (Cm : closed (step s (ORx d1)) = false) by (eapply closed_step_inv; exact Ca).
+  assert (Am : rx_alive (step s (ORx d1)) = true) by (eapply alive_step_inv; exact Aa).
+  assert (Cs : closed s = false) by (eapply closed_step_inv; exact Cm).
+  assert (As : rx_alive s = true) by (eapply alive_step_inv; exact Am).
+  assert (Ra : received (init c) (ops ++ [ORx d1; ORx d2]) = received (init c) ops ++ d1 ++ d2).
+  { unfold received. rewrite received_from_app. fold (run c ops). fold s.
+    cbn [received_from]. rewrite Cs, As, Cm, Am. cbn [negb andb]. rewrite !app_nil_r. reflexivity. }
+  assert (Rb : received (init c) (ops ++ [ORx (d1 ++ d2)]) = received (init c) ops ++ d1 ++ d2).
+  { unfold received. rewrite received_from_app. fold (run c ops). fold s.
+    cbn [received_from]. rewrite Cs, As. cbn [negb andb]. rewrite !app_nil_r. reflexivity. }
+  assert (Ea : run c (ops ++ [ORx d1; ORx d2]) = a) by (rewrite run_app; reflexivity).
+  assert (Eb : run c (ops ++ [ORx (d1 ++ d2)]) = b) by (rewrite run_app; reflexivity).
+  rewrite <- Ea, <- Eb in *.
+  apply session_stream_only; try assumption.
+  - rewrite Ra, Rb. reflexivity.
+  - rewrite Ra. apply wf_bytes_app. split; [exact W0|]. apply wf_bytes_app. split; assumption.
+Qed.
+
+(** The full-state version ("step (step s (ORx d1)) (ORx d2) = step s (ORx (d1 ++ d2))"
+    whenever no exception escapes the first read) is FALSE for the session
+    handler: [check_sess_term] closes the connection when the endpoint is
+    terminating and idle, and "idle" looks at whether the receive buffer is
+    empty -- so whether the connection closes after the peer's SESS_TERM
+    depends on whether the octets of the next message arrived in the same read.
+    Witness: an active endpoint that has sent SESS_TERM and flushed its
+    transmit buffers reads the peer's SESS_TERM reply [5;1;0] and a KEEPALIVE [4]. *)
+Definition refute_cfg : cfg := mkCfg false [97] 0 0 1000 1000 None.
+Definition refute_ops : list op :=
+  [OStart; ORx ([100;116;110;33;4;0] ++ encode_msg (MSessInit 0 1000 1000 [98] []));
+   OTerm 0; OTxPump true 100000; OTxPump true 100000].
+
+Theorem session_two_reads_refuted :
+  exists c ops d1 d2,
+    let s := run c ops in
+    closed s = false /\ rx_alive s = true /\ d1 <> [] /\ d2 <> [] /\ wf_bytes (d1 ++ d2)
+    /\ snd (recv_raw d1 s) = None
+    /\ handled (step (step s (ORx d1)) (ORx d2)) <> handled (step s (ORx (d1 ++ d2)))
+    /\ closed (step (step s (ORx d1)) (ORx d2)) = true
+    /\ closed (step s (ORx (d1 ++ d2))) = false.
+Proof.
+  exists refute_cfg, refute_ops, [5;1;0], [4]. cbv zeta.
+  split; [vm_compute; reflexivity|]. split; [vm_compute; reflexivity|].
+  split; [discriminate|]. split; [discriminate|].
+  split; [repeat constructor|]. split; [vm_compute; reflexivity|].
+  split; [vm_compute; discriminate|]. split; vm_compute; reflexivity.
+Qed.
+
+(** * Sender side: accounting of the octets written
+      (every octet the socket accepted, or that is still in one of the two
+      transmit buffers, comes from the encoding of a sent frame, in order) *)
+
+Definition tv (s : ep) := (wire s, conn_tx s, msg_tx s, sent s).
+Definition balv (v : bytes * bytes * bytes * list frame) : Prop :=
+  let '(w, c, m, snt) := v in w ++ c ++ m = enc snt.
+Definition bal (s : ep) : Prop := balv (tv s).
+
+Ltac bal_norm := repeat match goal with |- bal (set ?p ?f ?x) => change (bal x) end.
+
+Lemma tv_bal a b : tv a = tv b -> bal b -> bal a.
+Proof. unfold bal. intros ->. auto. Qed.
+
+Lemma bal_emit e s : bal s -> bal (emit e s). Proof. exact (fun H => H). Qed.
+Lemma bal_set_state st s : bal s -> bal (set_state st s).
+Proof. unfold set_state. destruct (state s =? st); exact (fun H => H). Qed.
+Lemma bal_ka_reset s : bal s -> bal (ka_reset s). Proof. exact (fun H => H). Qed.
+Lemma bal_idle_reset s : bal s -> bal (idle_reset s). Proof. exact (fun H => H). Qed.
+Lemma bal_send_ready s : bal s -> bal (send_ready s).
+Proof. unfold send_ready. destruct (io_set s); match goal with |- context [if ?c then _ else _] => destruct c end; exact (fun H => H). Qed.
+Lemma bal_send_frame f s : bal s -> bal (send_frame f s).
+Proof.
+  intros H. unfold send_frame. apply bal_idle_reset, bal_ka_reset, bal_send_ready.
+  unfold bal, tv, balv in *. cbn [wire conn_tx msg_tx sent set].
+  rewrite enc_snoc, <- H, <- !app_assoc. reflexivity.
+Qed.
+Lemma bal_send_msg m s : bal s -> bal (send_msg m s). Proof. apply bal_send_frame. Qed.
+Lemma bal_do_close s : bal s -> bal (do_close s).
+Proof.
+  intros H. unfold do_close. cbv zeta.
+  match goal with |- context [if ?c then _ else _] => destruct c end; [exact H|].
+  apply bal_emit. match goal with |- context [if ?c then _ else _] => destruct c end; exact H.
+Qed.
+Lemma bal_pq_trigger s : bal s -> bal (pq_trigger s).
+Proof. unfold pq_trigger. destruct (pq_set s); exact (fun H => H). Qed.
+Lemma bal_sbd n s : bal s -> bal (send_buffer_decreased n s).
+Proof. unfold send_buffer_decreased. destruct (_ <? _); [apply bal_pq_trigger|exact (fun H => H)]. Qed.
+Lemma bal_check_sess_term s : bal s -> bal (check_sess_term s).
+Proof. unfold check_sess_term. destruct (_ && _); [apply bal_do_close|exact (fun H => H)]. Qed.
+Lemma bal_send_contact_header s : bal s -> bal (send_contact_header s). Proof. apply bal_send_frame. Qed.
+Lemma bal_send_sess_init s : bal s -> bal (send_sess_init s).
+Proof. intros H. unfold send_sess_init. cbv zeta. bal_norm. apply bal_send_msg. exact H. Qed.
+Lemma bal_send_sess_term r b s : bal s -> bal (fst (send_sess_term r b s)).
+Proof.
+  intros H. unfold send_sess_term. destruct (negb (in_sess s)); [exact H|]. destruct (in_term s); [exact H|].
+  cbv zeta. cbn [fst ok]. apply bal_send_msg, bal_set_state. bal_norm. exact H.
+Qed.
+Lemma bal_escape r : bal (fst r) -> bal (escape r).
+Proof. destruct r as [s [k|]]; exact (fun H => H). Qed.
+Lemma bal_send_next s : bal s -> bal (send_next s).
+Proof.
+  intros H. unfold send_next. destruct (tx_tmp s) as [[id data]|]; [|exact H].
+  cbv zeta. destruct (_ && _); [exact H|].
+  match goal with |- context [if ?c then _ else _] => destruct c end.
+  - apply bal_pq_trigger. bal_norm. apply bal_send_msg. bal_norm. exact H.
+  - apply bal_send_msg. bal_norm. exact H.
+Qed.
+Lemma bal_process_queue s : bal s -> bal (fst (process_queue s)).
+Proof.
+  intros H. unfold process_queue. cbv zeta. cbn [tx_tmp in_sess in_term pend_start set].
+  destruct (tx_tmp s) as [p|] eqn:T.
+  - cbn [fst]. apply bal_send_next. bal_norm. exact H.
+  - destruct (negb (in_sess s)); [exact H|]. destruct (in_term s); [exact H|].
+    destruct (pend_start s) as [|[id data] rest]; [exact H|].
+    cbn [fst]. apply bal_send_next, bal_emit. bal_norm. exact H.
+Qed.
+Lemma bal_merge_session_params s : bal s -> bal (fst (merge_session_params s)).
+Proof.
+  intros H. unfold merge_session_params.
+  destruct (sessinit_this s) as [this|]; [|exact H].
+  destruct (sessinit_peer s) as [peer|]; [|exact H].
+  destruct (negb (ascii (si_nodeid peer))); exact H.
+Qed.
+Lemma bal_flush_fold (l : list (N * bytes)) : forall s0, bal s0 ->
+  bal (fold_left (fun s (it : N * bytes) =>
+               emit (ESig SigSendFinished [PStrNum (fst it); PInt 0; PStr RES_TERMINATING])
+                    (s <| tx_map := dict_del (fst it) (tx_map s) |>)) l s0).
+Proof. induction l as [|it l IH]; intros s0 H; cbn [fold_left]; [exact H|]. apply IH. exact H. Qed.
+Lemma bal_flush_pend_start s : bal s -> bal (flush_pend_start s).
+Proof. intros H. unfold flush_pend_start. apply bal_flush_fold. exact H. Qed.
+
+Lemma bal_tx_proxy a s : bal s -> bal (fst (tx_proxy a s)).
+Proof.
+  intros H. unfold tx_proxy.
+  match goal with |- context [if ?c then ?x else ?y] =>
+    assert (H1 : bal (fst (if c then x else y))) end.
+  { destruct (_ <? CHUNK); cbn [fst]; [|exact H].
+    match goal with |- bal (set conn_tx ?f ?x) =>
+      assert (T : tv (set conn_tx f x) = (wire s, conn_tx s ++ firstn chunk_nat (msg_tx s), skipn chunk_nat (msg_tx s), sent s)) end.
+    { unfold tv. cbn [wire conn_tx msg_tx sent set].
+      match goal with |- context [send_buffer_decreased ?n ?y] =>
+        assert (S1 : tv (send_buffer_decreased n y) = tv y)
+          by (unfold send_buffer_decreased, pq_trigger; destruct (_ <? _); [destruct (pq_set y)|]; reflexivity) end.
+      unfold tv in S1. injection S1 as -> -> -> ->. reflexivity. }
+    unfold bal. rewrite T. unfold bal, tv, balv in *.
+    rewrite <- H, <- !app_assoc, firstn_skipn. reflexivity. }
+  match goal with |- context [if ?c then ?x else ?y] => destruct (if c then x else y) as [s1 ue] end.
+  cbn [fst] in H1. destruct (is_nil (conn_tx s1)); [exact H1|].
+  cbv zeta. destruct (_ =? 0); cbn [fst]; [apply bal_do_close; exact H1|].
+  unfold bal, tv, balv in *. cbn [wire conn_tx msg_tx sent set].
+  rewrite <- H1, <- !app_assoc. rewrite (app_assoc (firstn _ _)), firstn_skipn. reflexivity.
+Qed.
+
+Ltac bal_auto H :=
+  repeat first
+    [ exact H
+    | progress bal_norm
+    | apply bal_check_sess_term | apply bal_emit | apply bal_send_msg | apply bal_set_state
+    | apply bal_pq_trigger | apply bal_flush_pend_start | apply bal_send_sess_init | apply bal_do_close ].
+
+Lemma bal_handle_msg m s : bal s -> bal (fst (handle_msg m s)).
+Proof.
+  intros H. destruct m; unfold handle_msg.
+  - destruct (negb (in_sess s)); [exact H|].
+    destruct (has_start flags).
+    + cbv zeta. destruct (has_end flags); cbn [fst]; bal_auto H.
+    + destruct (rx_tmp s) as [[cur acc]|]; [|exact H].
+      destruct (cur =? xid); [|exact H].
+      cbv zeta. destruct (has_end flags); cbn [fst]; bal_auto H.
+  - destruct (negb (in_sess s)); [exact H|].
+    destruct (dict_get xid (tx_map s)); [|exact H].
+    cbv zeta. destruct (has_end flags).
+    + cbn [pend_ack set]. destruct (negb (mem_N xid (pend_ack s))); cbn [fst]; bal_auto H.
+    + cbn [fst]. bal_auto H.
+  - destruct (negb (in_sess s)); [exact H|].
+    destruct (dict_get xid (tx_map s)); [|exact H].
+    cbv zeta. cbn [tx_tmp set emit].
+    destruct (tx_tmp s) as [[cur d]|]; [destruct (cur =? xid)|]; cbn [fst]; bal_auto H.
+  - exact H.
+  - destruct (negb (in_sess s)); [exact H|].
+    destruct (in_term s).
+    + cbn [fst]. bal_auto H.
+    + pose proof (bal_send_sess_term reason true s H) as H1.
+      destruct (send_sess_term reason true s) as [s1 [k|]]; cbn [fst] in *; [exact H1|].
+      bal_auto H1.
+  - exact H.
+  - cbv zeta.
+    match goal with |- context [merge_session_params ?x] =>
+      assert (H1 : bal x) by (destruct (c_passive (cf s)); bal_auto H);
+      pose proof (bal_merge_session_params x H1) as H2; destruct (merge_session_params x) as [s1 [k|]] end;
+      cbn [fst] in *; bal_auto H2.
+Qed.
+
+Lemma bal_recv_frame f s : bal s -> bal (fst (recv_frame f s)).
+Proof.
+  intros H. destruct f as [c|m]; unfold recv_frame.
+  - destruct (negb (bytes_eqb (ch_magic c) MAGIC)); [cbn [fst ok]; bal_auto H|].
+    destruct (negb (ch_version c =? 4)); [cbn [fst ok]; bal_auto H|].
+    cbv zeta.
+    set (s1 := if c_passive (cf s) then (send_contact_header s) <| conhead_this := Some (contact_flags s) |> else s).
+    assert (H1 : bal s1).
+    { unfold s1. destruct (c_passive (cf s)); [|exact H]. bal_norm. apply bal_send_contact_header. exact H. }
+    destruct (conhead_this s1); [|exact H1].
+    match goal with |- context [set_state ST_SESSNEG ?x] => set (s3 := set_state ST_SESSNEG x) end.
+    assert (H3 : bal s3) by (unfold s3; apply bal_set_state; bal_norm; exact H1).
+    destruct (c_require_tls (cf s3)) as [[|]|]; [|destruct (c_passive (cf s3))|destruct (c_passive (cf s3))];
+      cbn [fst ok]; bal_auto H3.
+  - pose proof (bal_handle_msg m s H) as H1.
+    destruct (handle_msg m s) as [s1 [|reason|k]]; cbn [fst] in *; unfold ok, raise; cbn [fst]; bal_auto H1.
+Qed.
+
+Lemma bal_recv_loop : forall fuel s, bal s -> bal (fst (recv_loop fuel s)).
+Proof.
+  induction fuel as [|fuel IH]; intros s H; cbn [recv_loop]; [exact H|].
+  destruct (is_nil (rx_buf s) || closed s); [exact H|].
+  destruct (parse_frame (in_conn s) (rx_buf s)) as [[fr rest]|]; [|exact H].
+  match goal with |- context [recv_frame fr ?x] =>
+    assert (H1 : bal x) by (bal_norm; exact H);
+    pose proof (bal_recv_frame fr x H1) as H2; destruct (recv_frame fr x) as [s1 [k|]] end;
+    cbn [fst] in *; [exact H2|]. apply IH. exact H2.
+Qed.
+
+Lemma bal_step s o : bal s -> bal (step s o).
+Proof.
+  intros H. destruct o; unfold step.
+  - destruct (closed s); [exact H|].
+    destruct (negb (state s =? ST_CONNECTING)); [exact H|].
+    cbv zeta. apply bal_set_state.
+    destruct (c_passive (cf s)); [exact H|]. bal_norm. apply bal_send_contact_header. exact H.
+  - destruct (closed s); [exact H|]. cbv zeta. apply bal_emit, bal_pq_trigger. bal_norm. exact H.
+  - destruct (closed s); [exact H|].
+    destruct (negb (in_sess s)); [apply bal_do_close; exact H|].
+    apply bal_escape, bal_send_sess_term. exact H.
+  - destruct (closed s); [exact H|]. apply bal_do_close. exact H.
+  - destruct (closed s); [exact H|].
+    destruct (dict_get id (rx_map s)); [apply bal_emit; bal_norm; exact H|apply bal_emit; exact H].
+  - destruct (closed s); [exact H|].
+    match goal with |- context [if ?c then _ else _] => destruct c end; [|exact H].
+    cbv zeta.
+    assert (H0 : bal (s <| pend_set := false |>)) by (bal_norm; exact H).
+    pose proof (bal_tx_proxy accept _ H0) as H1.
+    destruct (tx_proxy accept (s <| pend_set := false |>)) as [s1 cont]. cbn [fst] in H1.
+    destruct cont; [exact H1|]. destruct idle; bal_norm; exact H1.
+  - destruct (closed s); [exact H|].
+    destruct (is_nil data || negb (rx_alive s)); [exact H|].
+    unfold recv_raw. cbv zeta.
+    match goal with |- context [recv_loop ?f ?x] =>
+      assert (H0 : bal x) by (bal_norm; apply bal_idle_reset; bal_norm; exact H);
+      pose proof (bal_recv_loop f x H0) as H1; destruct (recv_loop f x) as [s1 [k|]] end;
+      cbn [fst] in H1; [apply bal_emit; bal_norm; exact H1|exact H1].
+  - destruct (closed s); [exact H|]. destruct (rx_alive s); [apply bal_do_close; exact H|exact H].
+  - destruct (closed s); [exact H|].
+    match goal with |- context [if ?c then _ else _] => destruct c end; [|exact H].
+    pose proof (bal_process_queue s H) as H1.
+    destruct (process_queue s) as [s1 keep]. cbn [fst] in H1.
+    destruct keep; bal_norm; exact H1.
+  - destruct (closed s); [exact H|].
+    destruct (ka_due s) as [due|]; [|exact H].
+    destruct (due <=? now s); [|exact H]. apply bal_send_msg. bal_norm. exact H.
+  - destruct (closed s); [exact H|].
+    destruct (idle_due s) as [due|]; [|exact H].
+    destruct (due <=? now s); [|exact H]. cbv zeta. cbn [in_term set].
+    destruct (in_term s).
+    + apply bal_do_close. bal_norm. exact H.
+    + apply bal_escape, bal_send_sess_term. bal_norm. exact H.
+  - bal_norm. exact H.
+Qed.
+
+(** [sent_accounting] *)
+Theorem sent_accounting : forall c ops,
+  wire (run c ops) ++ conn_tx (run c ops) ++ msg_tx (run c ops) = enc (sent (run c ops)).
+Proof.
+  intros c ops. apply (run_invariant bal c); [reflexivity|intros; apply bal_step; assumption].
 Qed.
